@@ -55,6 +55,7 @@ ASSUMPTIONS = [
     "feature values finite; sparse indices < N; N >= 1",
     "public-API stream: N > D (pencil right-hand sides nonsingular), eigenvalue gaps > 1e-3 relative for the "
     "rotation comparison (inside a numerically multiple eigenvalue the basis is free)",
+    "public-API comparisons are made for cond(X B X^T) <= 1e9 only, with tolerances growing like 1e4*eps*cond",
     "only eigen_method = Dense is exercised (ARPACK is not built; Randomized is rejected by the library for "
     "generalised problems)",
 ]
@@ -65,6 +66,8 @@ GRAM_TOL = 1e-6
 EMB_TOL = 1e-9
 ROT_TOL = 1e-5      # 1 - |cos| between embedding columns of X and R X
 GAP_MIN = 1e-3
+CHAIN_TOL = 1e-6    # recorded pencil vs the routine called by the harness (observed <= 3e-9: OpenMP triplet order)
+COND_MAX = 1e9      # cond(X B X^T) beyond which the public-API spectral comparison is skipped (counted)
 
 
 # ----------------------------------------------------------------------------- numbers
@@ -720,7 +723,7 @@ def eval_e(ctx, exe1, exe2, cases, stats, rng, rotate_every=2):
         ch = p.get("chain")
         if ch is not None:
             good = ch["calls"] == 1 and ch["d"] == c["d"] and ch["smallest"] == 1 and \
-                0 <= ch["dl"] <= 1e-9 and 0 <= ch["dr"] <= 1e-9 and 0 <= ch["dp"] <= 1e-12
+                0 <= ch["dl"] <= CHAIN_TOL and 0 <= ch["dr"] <= CHAIN_TOL and 0 <= ch["dp"] <= 1e-12
             if good:
                 stats["chain_ok"] += 1
             else:
@@ -761,7 +764,15 @@ def eval_e(ctx, exe1, exe2, cases, stats, rng, rotate_every=2):
             ctx.note("reference arithmetic failed for a case (skipped): %s" % str(inf or line)[:200])
             stats["ref_failed"] += 1
             continue
-        t = parse_tagged(line, ("ref_evals", "rq", "res", "gram", "norms"))
+        t = parse_tagged(line, ("ref_evals", "rq", "res", "gram", "norms", "condB"))
+        condB = parse_hex(t["condB"][0]) if t.get("condB") else float("inf")
+        stats["e_max_condB"] = max(stats["e_max_condB"], condB if math.isfinite(condB) else 1e300)
+        if not condB <= COND_MAX:
+            # the generalised problem itself is too ill-conditioned for a tolerance comparison to mean anything
+            stats["e_skipped_illconditioned"] += 1
+            continue
+        # backward-stable solvers lose about eps * cond(B) in the spectrum: tolerances grow with it
+        slack = max(1.0, 1e4 * 2.3e-16 * condB / RQ_TOL)
         ref = [parse_hex(x) for x in t["ref_evals"]]
         rq = [parse_hex(x) for x in t["rq"]]
         rs = [parse_hex(x) for x in t["res"]]
@@ -774,16 +785,16 @@ def eval_e(ctx, exe1, exe2, cases, stats, rng, rotate_every=2):
         if not all(math.isfinite(x) for x in p["P"] + p["Y"]):
             why.append("non-finite projection matrix / embedding")
         else:
-            bad_res = [j for j in range(d) if not (rs[j] <= RES_TOL)]
+            bad_res = [j for j in range(d) if not (rs[j] <= RES_TOL * slack)]
             if bad_res:
                 why.append("columns %s of the projection matrix do not solve (X M X^T) p = l (X B X^T) p: relative "
                            "residual %s" % (bad_res, ["%.2e" % rs[j] for j in bad_res]))
-            bad_rq = [j for j in range(d) if not (abs(rq[j] - ref[j]) <= RQ_TOL * spread)]
+            bad_rq = [j for j in range(d) if not (abs(rq[j] - ref[j]) <= RQ_TOL * slack * spread)]
             if bad_rq:
                 why.append("Rayleigh quotients %s are not the %d smallest generalised eigenvalues %s"
                            % (["%.6g" % x for x in rq], d, ["%.6g" % x for x in ref[:d]]))
             ge = max(abs(gram[a][b] - (1.0 if a == b else 0.0)) for a in range(d) for b in range(d))
-            if not ge <= GRAM_TOL:
+            if not ge <= GRAM_TOL * slack:
                 why.append("P^T (X B X^T) P differs from the identity by %.2e" % ge)
             # embedding = centred samples projected
             Xf = [[parse_hex(x) for x in row] for row in c["X"]]
@@ -935,7 +946,7 @@ def build_all(ctx):
 def new_stats():
     return {"malformed": 0, "spec_ok": 0, "spec_fail": 0, "other_triangle_differs": 0, "g_ok": 0,
             "select_bad": 0, "e_ok": 0, "e_fail": 0, "ref_failed": 0, "rot_ok": 0, "rot_fail": 0,
-            "j_ok": 0, "j_fail": 0, "chain_ok": 0, "chain_bad": 0, "chain_missing": 0, "rot_cols": 0, "rot_skipped_gap": 0, "rot_skipped_unstable_M": 0, "rot_max_M_reldiff": 0.0, "rot_min_cos": 1.0, "e_max_res": 0.0, "triangle_votes": {}}
+            "j_ok": 0, "j_fail": 0, "chain_ok": 0, "chain_bad": 0, "chain_missing": 0, "rot_cols": 0, "rot_skipped_gap": 0, "rot_skipped_unstable_M": 0, "rot_max_M_reldiff": 0.0, "rot_min_cos": 1.0, "e_max_res": 0.0, "e_max_condB": 0.0, "e_skipped_illconditioned": 0, "triangle_votes": {}}
 
 
 K_KINDS = ("plain", "plain", "correlated", "symmetric", "alignment", "empty", "zero")
@@ -1024,7 +1035,7 @@ def run(ctx):
              "and P). evaluations = K + G + J + E(+rotated) driver runs.",
         samples=samples, histogram={"generators": hist, "stats": stats},
         trusted_base=TRUSTED, assumptions=ASSUMPTIONS,
-        extra={"tolerances": {"residual": RES_TOL, "rayleigh": RQ_TOL, "gram": GRAM_TOL, "embedding": EMB_TOL,
+        extra={"tolerances": {"chain": CHAIN_TOL, "cond_max": COND_MAX, "residual": RES_TOL, "rayleigh": RQ_TOL, "gram": GRAM_TOL, "embedding": EMB_TOL,
                               "rotation_1_minus_cos": ROT_TOL, "min_relative_gap": GAP_MIN},
                "exact_stream_cases": len(kc), "tolerance_stream_cases": len(ec) + len(gc)})
 
